@@ -499,13 +499,26 @@ func panicSite(stack string) string {
 			if j := strings.Index(loc, " "); j >= 0 {
 				loc = loc[:j]
 			}
-			out = append(out, loc)
+			out = append(out, loc+"@"+frameFunc(lines[i]))
 			if len(out) == 3 {
 				break
 			}
 		}
 	}
 	return strings.Join(out, " < ")
+}
+
+// frameFunc: the function name of a stack-trace line "github.com/go-openapi/validate.(*T).method(0x…)" (line numbers move
+// with every change to the file; the known findings are matched by function)
+func frameFunc(line string) string {
+	line = strings.TrimSpace(line)
+	if j := strings.Index(line, "go-openapi/validate."); j >= 0 {
+		line = line[j+len("go-openapi/validate."):]
+	}
+	if j := strings.LastIndex(line, "("); j > 0 {
+		line = line[:j]
+	}
+	return line
 }
 
 // panicSiteOuter: for a fatal stack trace (possibly truncated in the middle), the outermost frames
@@ -522,7 +535,7 @@ func panicSiteOuter(stack string) string {
 			if j := strings.Index(loc, " "); j >= 0 {
 				loc = loc[:j]
 			}
-			out = append(out, loc)
+			out = append(out, loc+"@"+frameFunc(lines[i]))
 		}
 	}
 	if len(out) > 4 {
